@@ -123,6 +123,7 @@ def run(ctx, F):
     # (vi) the output format reaches every scope created during the compilation
     from rules.C36 import format_propagation
     format_propagation(ctx, prog)
+    comment_neutrality(ctx, prog)
     ctx.explanation = ("Inventory of every read of the output style (MIR call sites of Format::is_compressed / get_indent and uses of Style constants) against a reviewed table; "
                        "whitespace-equivalence of all add_one literal pairs (AST); dominance regions of each style branch must contain no error exit; "
                        "provenance of the Format argument of every Formatted construction outside the serialisation phase. Whether two notations denote the same colour/number is C33/C10, not decided here.")
@@ -207,3 +208,35 @@ def stale_style_decisions(ctx, tree):
             else:
                 ctx.ok("F4-style-decision-fresh", key, {"deps": sorted(deps)})
     ctx.floor("named style-dependent decisions", n, 3)
+
+
+ALLOWED_IN_PUSH_COMMENT = re.compile(
+    r"Vec<T, A>>::push$|css::rule::Rule>::push$|as std::convert::(Into|From)<.*>>::(into|from)$|CssDestination::push_comment$|"
+    r"Option<T>>::(as_mut|as_deref_mut)$|DerefMut>::deref_mut$|Deref>::deref$")
+
+
+def comment_neutrality(ctx, prog):
+    """Loud comments reach the destinations only in expanded style.  A destination must therefore do
+    nothing on push_comment except store (or forward) the comment: any other state it updates there
+    (positions, flags, flushing a rule) makes the structure or order of the *other* items depend on
+    the style."""
+    impls = [b for b in prog.bodies.values() if b.def_.endswith("::push_comment") and (b.raw.get("trait") or "").endswith("CssDestination")]
+    ctx.floor("push_comment implementations (MIR)", len(impls), 5)
+    for b in sorted(impls, key=lambda b: b.def_):
+        bad = []
+        for bi, t in b.calls():
+            nm = mir.callee_name(t) or ""
+            on = mir.callee_orig(t) or ""
+            if ALLOWED_IN_PUSH_COMMENT.search(nm) or ALLOWED_IN_PUSH_COMMENT.search(on):
+                continue
+            bad.append(nm)
+        # direct field writes other than through push
+        writes = []
+        for bi, si, s in b.stmts():
+            if s["k"] == "assign" and s["p"][1] and any(p.startswith(".") for p in s["p"][1]) and s["p"][0] == 1:
+                writes.append("".join(s["p"][1]))
+        key = b.raw.get("self_ty", b.def_).split("<")[0] + "::push_comment"
+        if bad or writes:
+            ctx.fail("F8-comment-neutral", key, f"{b.def_} does more than store the comment (calls {sorted(set(bad))}, writes {writes}): since comments are only pushed in expanded style, the other items can end up structured or ordered differently in the two styles", where=b.where())
+        else:
+            ctx.ok("F8-comment-neutral", key, None)
